@@ -5,3 +5,4 @@ import SkoolVerif.Prelude.SimProto
 import SkoolVerif.Props.C09
 import SkoolVerif.Proofs.SimFrame
 import SkoolVerif.Proofs.SimWf
+import SkoolVerif.Props.C18
